@@ -1,0 +1,18 @@
+//go:build !verif
+
+package ir
+
+// No-op twins of the recording hooks in verif_c18.go (build tag verif). They compile to nothing.
+
+type verifWaiter struct{}
+
+func verifTaskEdge(x, y *task, added bool)    {}
+func verifTaskMarkDone(x *task)               {}
+func verifWaitStart(x *task) verifWaiter      { return verifWaiter{} }
+func verifWaitFast(w verifWaiter, x *task)    {}
+func verifWaitSkip(w verifWaiter, u *task)    {}
+func verifWaitObserve(w verifWaiter, u *task) {}
+func verifWaitClosed(w verifWaiter, x *task)  {}
+func verifEnqueue(fn *Function)               {}
+func verifFnBuilt(fn *Function)               {}
+func verifPkgBuild(p *Package)                {}
